@@ -153,6 +153,10 @@ def run(ctx):
                 continue
             for rep in range(3 if quick else 10):
                 d = calc.interstitial_data(s, rng, 0, 3 if rep else 1, 0, 2)
+                if rep % 4 == 2:
+                    # realistic absolute barriers (beta E ~ 28..32): every rate is of order 1e-12 (the exact value
+                    # scales by exactly 2^-40; any absolute cut-off in the bias correction shows up here)
+                    d["eneTL"] = [e + 40 for e in d["eneTL"]]
                 args = calc.interstitial_args(d)
                 D = s.calc.diffusivity(*args)
                 Dl = rel.to_latt(s.crys, D) * s.w["D"] ** 2          # grid units
